@@ -27,6 +27,8 @@ Inductive att :=
   | ASending             (* CONNECTED set, init message written, suspended in drain() *)
   | AAwaitInit           (* accept task suspended reading the init message in on_peer_accepted *)
   | AOwnClose (a : after)(* suspended inside its own disconnect() call (wait_closed) *)
+  | AWaitDet (a : after) (* its write failed: _send spawned the detached disconnect task (not yet run) and awaits it, shielded *)
+  | AWaitClose (a : after)(* the detached disconnect task is in wait_closed; the coroutine still awaits it, shielded *)
   | ARet.                (* on_peer_accepted has returned (or is about to): accept() ends *)
 Inductive ares := ResNone | ResOk | ResFail | ResCancelled.
 
@@ -44,6 +46,7 @@ Inductive event :=
   | Accept | InitRead (r : initmsg) | AcceptReturns
   | Disconnect (r : reason)      (* first segment of disconnect(): guard, CLOSING, writer.close() *)
   | CloseDone                    (* second segment: wait_closed returned / timed out: CLOSED *)
+  | DetachedRun                  (* a detached disconnect task (spawned by _send on a write failure) runs its first segment *)
   | ReaderGets (x : rx)
   | Send (m : smode)
   | QSend (m : smode).           (* queue_message: send_message in its own task, which disconnect() cancels *)
@@ -56,6 +59,7 @@ Record conn := mk {
   reader : rdr; pc : pcs; writer : wst;
   at_ : att; res : ares;
   closers : nat;             (* disconnect() calls between their CLOSING and their CLOSED *)
+  detached : nat;            (* detached disconnect tasks spawned by _send on a write failure, not yet run *)
   delivered : nat;           (* MessageReceivedEvent count *)
   sent : nat;                (* writes that reached the transport *)
   (* ghosts (observers only; no step reads them) *)
@@ -67,7 +71,7 @@ Record conn := mk {
 }.
 
 Definition init (k : kind) (t : ctype) : conn :=
-  mk k t UNINIT [] false RNone AwaitInit WNone ANone ResNone 0 0 0 false false false 0 0.
+  mk k t UNINIT [] false RNone AwaitInit WNone ANone ResNone 0 0 0 0 false false false 0 0.
 
 Definition rank (s : cst) : nat :=
   match s with UNINIT => 0 | CONNECTING => 1 | CONNECTED => 2 | CLOSING => 3 | CLOSED => 4 end.
@@ -84,33 +88,35 @@ Definition ok_next (k : kind) (a b : cst) : bool :=
 Definition report (s : cst) (c : conn) : conn :=
   mk (kd c) (ty c) s (s :: rep c)
      (if cst_eqb s CLOSED then false else in_reg c)
-     (reader c) (pc c) (writer c) (at_ c) (res c) (closers c) (delivered c) (sent c)
+     (reader c) (pc c) (writer c) (at_ c) (res c) (closers c) (detached c) (delivered c) (sent c)
      (seen_closed c || cst_eqb s CLOSED)
      (viol c || negb (ok_next (kd c) (st c) s))
      (twice c || (negb (is_server (kd c)) && seen_closed c))
      (bad_deliv c) (bad_sent c).
 
-Definition set_reader r c := mk (kd c) (ty c) (st c) (rep c) (in_reg c) r (pc c) (writer c) (at_ c) (res c) (closers c)
+Definition set_reader r c := mk (kd c) (ty c) (st c) (rep c) (in_reg c) r (pc c) (writer c) (at_ c) (res c) (closers c) (detached c)
   (delivered c) (sent c) (seen_closed c) (viol c) (twice c) (bad_deliv c) (bad_sent c).
-Definition set_pc p c := mk (kd c) (ty c) (st c) (rep c) (in_reg c) (reader c) p (writer c) (at_ c) (res c) (closers c)
+Definition set_pc p c := mk (kd c) (ty c) (st c) (rep c) (in_reg c) (reader c) p (writer c) (at_ c) (res c) (closers c) (detached c)
   (delivered c) (sent c) (seen_closed c) (viol c) (twice c) (bad_deliv c) (bad_sent c).
-Definition set_writer w c := mk (kd c) (ty c) (st c) (rep c) (in_reg c) (reader c) (pc c) w (at_ c) (res c) (closers c)
+Definition set_writer w c := mk (kd c) (ty c) (st c) (rep c) (in_reg c) (reader c) (pc c) w (at_ c) (res c) (closers c) (detached c)
   (delivered c) (sent c) (seen_closed c) (viol c) (twice c) (bad_deliv c) (bad_sent c).
-Definition set_att a c := mk (kd c) (ty c) (st c) (rep c) (in_reg c) (reader c) (pc c) (writer c) a (res c) (closers c)
+Definition set_att a c := mk (kd c) (ty c) (st c) (rep c) (in_reg c) (reader c) (pc c) (writer c) a (res c) (closers c) (detached c)
   (delivered c) (sent c) (seen_closed c) (viol c) (twice c) (bad_deliv c) (bad_sent c).
-Definition set_res r c := mk (kd c) (ty c) (st c) (rep c) (in_reg c) (reader c) (pc c) (writer c) (at_ c) r (closers c)
+Definition set_res r c := mk (kd c) (ty c) (st c) (rep c) (in_reg c) (reader c) (pc c) (writer c) (at_ c) r (closers c) (detached c)
   (delivered c) (sent c) (seen_closed c) (viol c) (twice c) (bad_deliv c) (bad_sent c).
-Definition set_closers n c := mk (kd c) (ty c) (st c) (rep c) (in_reg c) (reader c) (pc c) (writer c) (at_ c) (res c) n
+Definition set_closers n c := mk (kd c) (ty c) (st c) (rep c) (in_reg c) (reader c) (pc c) (writer c) (at_ c) (res c) n (detached c)
   (delivered c) (sent c) (seen_closed c) (viol c) (twice c) (bad_deliv c) (bad_sent c).
-Definition set_reg b c := mk (kd c) (ty c) (st c) (rep c) b (reader c) (pc c) (writer c) (at_ c) (res c) (closers c)
+Definition set_detached n c := mk (kd c) (ty c) (st c) (rep c) (in_reg c) (reader c) (pc c) (writer c) (at_ c) (res c) (closers c) n
   (delivered c) (sent c) (seen_closed c) (viol c) (twice c) (bad_deliv c) (bad_sent c).
-Definition set_ty t c := mk (kd c) t (st c) (rep c) (in_reg c) (reader c) (pc c) (writer c) (at_ c) (res c) (closers c)
+Definition set_reg b c := mk (kd c) (ty c) (st c) (rep c) b (reader c) (pc c) (writer c) (at_ c) (res c) (closers c) (detached c)
   (delivered c) (sent c) (seen_closed c) (viol c) (twice c) (bad_deliv c) (bad_sent c).
-Definition bump_delivered c := mk (kd c) (ty c) (st c) (rep c) (in_reg c) (reader c) (pc c) (writer c) (at_ c) (res c) (closers c)
+Definition set_ty t c := mk (kd c) t (st c) (rep c) (in_reg c) (reader c) (pc c) (writer c) (at_ c) (res c) (closers c) (detached c)
+  (delivered c) (sent c) (seen_closed c) (viol c) (twice c) (bad_deliv c) (bad_sent c).
+Definition bump_delivered c := mk (kd c) (ty c) (st c) (rep c) (in_reg c) (reader c) (pc c) (writer c) (at_ c) (res c) (closers c) (detached c)
   (S (delivered c)) (sent c) (seen_closed c) (viol c) (twice c)
   (if negb (is_server (kd c)) && seen_closed c then S (bad_deliv c) else bad_deliv c)
   (bad_sent c).
-Definition bump_sent c := mk (kd c) (ty c) (st c) (rep c) (in_reg c) (reader c) (pc c) (writer c) (at_ c) (res c) (closers c)
+Definition bump_sent c := mk (kd c) (ty c) (st c) (rep c) (in_reg c) (reader c) (pc c) (writer c) (at_ c) (res c) (closers c) (detached c)
   (delivered c) (S (sent c)) (seen_closed c) (viol c) (twice c) (bad_deliv c)
   (if negb (is_server (kd c)) && seen_closed c then S (bad_sent c) else bad_sent c)
  .
@@ -189,6 +195,11 @@ Definition step0 (c : conn) (e : event) : conn :=
           (* (repairs F15, F15b) connect() / the attempt coroutine catch CancelledError, run disconnect(), re-raise *)
           let '(c, blocked) := do_disconnect c in
           if blocked then set_att (AOwnClose ThenCancel) c else set_res ResCancelled (set_att ANone c)
+      | AWaitDet _ | AWaitClose _ =>
+          (* cancelled while awaiting the shielded detached disconnect: that task goes on; the coroutine's own
+             except-CancelledError handler calls disconnect() (a no-op once CLOSING was reported) and re-raises *)
+          let '(c, blocked) := do_disconnect c in
+          if blocked then set_att (AOwnClose ThenCancel) c else set_res ResCancelled (set_att ANone c)
       | AOwnClose ThenRaise | AOwnClose ThenCancel =>
           (* CancelledError out of wait_closed: the finally clause still runs set_state(CLOSED) *)
           set_res ResCancelled (set_att ANone (set_closers (pred (closers c)) (finish_close c)))
@@ -200,8 +211,8 @@ Definition step0 (c : conn) (e : event) : conn :=
           match m with
           | SOk => set_res ResOk (set_att ANone (finalize c))
           | _ =>
-              let '(c, blocked) := do_disconnect c in
-              if blocked then set_att (AOwnClose ThenRaise) c else set_res ResFail (set_att ANone c)
+              (* _send: await shield(ensure_future(disconnect(reason))) *)
+              set_att (AWaitDet ThenRaise) (set_detached (S (detached c)) c)
           end
       | _ => c
       end
@@ -243,9 +254,9 @@ Definition step0 (c : conn) (e : event) : conn :=
       | S n =>
           let c := set_closers n (finish_close c) in
           match at_ c with
-          | AOwnClose ThenRaise => set_res ResFail (set_att ANone c)
-          | AOwnClose ThenCancel => set_res ResCancelled (set_att ANone c)
-          | AOwnClose ThenRet => set_att ARet c
+          | AOwnClose ThenRaise | AWaitClose ThenRaise => set_res ResFail (set_att ANone c)
+          | AOwnClose ThenCancel | AWaitClose ThenCancel => set_res ResCancelled (set_att ANone c)
+          | AOwnClose ThenRet | AWaitClose ThenRet => set_att ARet c
           | _ => c
           end
       end
@@ -261,7 +272,26 @@ Definition step0 (c : conn) (e : event) : conn :=
           end
       | _ => c
       end
-  | Send m =>
+  | DetachedRun =>
+      match detached c with
+      | O => c
+      | S n =>
+          let '(c, blocked) := do_disconnect (set_detached n c) in
+          match at_ c with
+          | AWaitDet a =>
+              if blocked then set_att (AWaitClose a) c
+              else match a with
+                   | ThenRet => set_att ARet c
+                   | ThenCancel => set_res ResCancelled (set_att ANone c)
+                   | ThenRaise => set_res ResFail (set_att ANone c)       (* the disconnect returned at once: the sender raises *)
+                   end
+          | _ => c
+          end
+      end
+  | Send m | QSend m =>
+      (* send_message directly or (QSend) in a task created by queue_message.  A write/drain error or timeout makes
+         _send spawn the detached disconnect task and await it shielded: the failing segment itself reports nothing;
+         a queued sender cancelled by that disconnect's _cancel_queued_messages does not stop it *)
       if closing (st c) then c                    (* send_message returns silently *)
       else match writer c with
       | WNone => c                                (* ConnectionWriteError "connection is not open", nothing else *)
@@ -269,23 +299,7 @@ Definition step0 (c : conn) (e : event) : conn :=
           let c := match w with WOpen => bump_sent c | _ => c end in
           match m, w with
           | SOk, WOpen => c
-          | _, _ => fst (do_disconnect c)         (* write/drain error or timeout: disconnect(WRITE_ERROR/TIMEOUT) *)
-          end
-      end
-  | QSend m =>
-      (* the same in a queued task.  When the write fails, disconnect() runs INSIDE the queued task and its
-         _cancel_queued_messages() cancels that very task: the CancelledError surfaces at wait_closed() and the
-         finally clause reports CLOSED in the same segment (no CloseDone needed) *)
-      if closing (st c) then c
-      else match writer c with
-      | WNone => c
-      | w =>
-          let c := match w with WOpen => bump_sent c | _ => c end in
-          match m, w with
-          | SOk, WOpen => c
-          | _, _ =>
-              let '(c1, blocked) := do_disconnect c in
-              if blocked then set_closers (pred (closers c1)) (finish_close c1) else c1
+          | _, _ => set_detached (S (detached c)) c
           end
       end
   end.
@@ -325,7 +339,7 @@ Fixpoint closed_last (l : list cst) : Prop :=
 (* no segment is runnable or waiting for a close in progress: every coroutine of the connection
    is finished or waits for the network (connect outcome, init message, drain, next message) *)
 Definition quiescent (c : conn) : bool :=
-  Nat.eqb (closers c) 0 &&
+  Nat.eqb (closers c) 0 && Nat.eqb (detached c) 0 &&
   match at_ c with ANone | AConnecting | ASending | AAwaitInit => true | _ => false end.
 
 (* "open, or being opened by a still-running attempt" *)
@@ -344,7 +358,8 @@ Definition implied (wch : bool) (c : conn) : list event :=
   (match at_ c, writer c with AAwaitInit, WOpen => [] | AAwaitInit, _ => [InitRead IEof] | _, _ => [] end)
   ++ [AcceptReturns] ++ (if wch then [] else [CloseDone; CloseDone; AcceptReturns]).
 
-Definition settle (wch : bool) (c : conn) : conn := run c (implied wch c).
+Definition settle (wch : bool) (c : conn) : conn :=
+  let c1 := run c [DetachedRun; DetachedRun] in run c1 (implied wch c1).
 
 (* a harness action = stimuli, each followed by the implied segments *)
 Definition act (wch : bool) (c : conn) (evs : list event) : conn :=
